@@ -4,8 +4,14 @@ import "time"
 
 var ingestReal = []string{"internal/ingest (ArrowBuffer, ArrowWriter, msgpack/line-protocol decoders)", "internal/wal (Writer, Reader, Recovery)", "internal/shutdown.Coordinator", "internal/storage.LocalBackend", "internal/api MsgPackHandler + LineProtocolHandler via in-process Fiber", "cmd/arc main(): WAL/buffer boot, wal-purge hook, start-up recovery, periodic WAL maintenance (extracted verbatim by simgen X-slice)", "arrow-go parquet writer; pqarrow reader for read-back"}
 var commonStub = []string{"Go scheduler choice (simrt cooperative scheduler, seeded)", "wall clock, timers, tickers, context deadlines (simrt discrete-event clock)", "map iteration order (sorted + seeded permutation)", "os/filepath calls of instrumented packages (pass-through to real files + fault/crash injection)"}
+var ingestStub = append([]string{"storage faults: a wrapper around LocalBackend adds latency, injected write failures and (optionally) honours context cancellation like the S3/Azure backends"}, commonStub...)
 
 var props = map[string]propCfg{
-	"C03": {Area: "ingest", Level: "exploration", Quick: 25 * time.Second, Thorough: 10 * time.Minute,
-		Real: ingestReal, Stub: append([]string{"storage faults: a wrapper around LocalBackend adds latency and (optionally) honours context cancellation like the S3/Azure backends"}, commonStub...)},
+	"C03": {Area: "ingest", Level: "exploration", Quick: 25 * time.Second, Thorough: 10 * time.Minute, Real: ingestReal, Stub: ingestStub},
+	"C04": {Area: "ingest", Level: "exploration", Quick: 30 * time.Second, Thorough: 10 * time.Minute, Real: ingestReal, Stub: ingestStub,
+		Assume: []string{"request bodies come from a seeded structure-aware generator plus byte-level mutations (not coverage-guided); import/TLE endpoints are not driven"}},
+	"C05": {Area: "ingest", Level: "exploration", Quick: 30 * time.Second, Thorough: 12 * time.Minute, Real: ingestReal, Stub: ingestStub,
+		Assume: []string{"'WAL entry reached the file' is decided by an independent parser of the WAL files at the crash instant (complete entry with matching CRC), plus rows already in complete Parquet files"}},
+	"C07": {Area: "ingest", Level: "exploration", Quick: 30 * time.Second, Thorough: 12 * time.Minute, Real: ingestReal, Stub: ingestStub,
+		Assume: []string{"liveness budget after faults stop: 3 x (WAL maintenance interval + safeAge + max buffer age + 5 s) of simulated time, optional clean restart"}},
 }
